@@ -5,7 +5,8 @@ from seqprop import coverage, replay_file, corpus, audit
 
 LEVEL = "translation_validation"
 COQ_TARGETS = ("props/C18.vo",)
-THEOREMS = ['C18_filter_verdicts_partial', 'C18_assignment_on_create_partial']
+THEOREMS = ['C18_filter_verdicts_partial', 'C18_assignment_on_create_partial', 'C18_filtered_form_stable_partial',
+            'C18_stays_filtered_refuted']
 RULE = ("2-3 keyspaces of which one or two have a filter assigned by name (keep / remove / replace decided from the first key "
         "byte), random programs with rotate/step/drain/major and reopen; results compared between implementation, model and "
         "oracle (the model applies the verdicts in its compaction stream: kept keys exact, removed/replaced keys in original "
@@ -46,12 +47,146 @@ def programs(seed, n, nops):
     return out
 
 
+def parse_rules(open_line):
+    """filters=<name>:<rule>[;...] -> {name: {first byte (2 hex): ('r',) | ('p', valhex)}}"""
+    out = {}
+    for tok in open_line.split():
+        if tok.startswith("filters="):
+            for part in tok[len("filters="):].split(";"):
+                name, rule = part.split(":", 1)
+                d = {}
+                for it in rule.split(","):
+                    if it.startswith("r"):
+                        d[it[1:3]] = ("r",)
+                    elif it.startswith("p"):
+                        b, v = it[1:].split(":", 1)
+                        d[b] = ("p", v)
+                out[name] = d
+    return out
+
+
+def stays_filtered(prog, obs):
+    """Independent monitor over the implementation's own observations (no model involved): after `put k v` into a filtered
+    keyspace, a latest-state read of k may show v or the filtered form; once it showed the filtered form it must not show v
+    again until k is written again.  Returns a list of (line, key, rule kind, reopen in between, filtered at line)."""
+    lines = prog.splitlines()
+    rules = parse_rules(lines[0]) if lines else {}
+    if not rules:
+        return []
+    handle, st, out = {}, {}, []          # st[(name, key)] = [orig value, filtered at line or None]
+    reopens = []
+
+    def forget(name=None, key=None):
+        for kk in [kk for kk in st if (name is None or kk[0] == name) and (key is None or kk[1] == key)]:
+            del st[kk]
+
+    def see(name, key, val, ln):
+        s_ = st.get((name, key))
+        rule = rules.get(name, {}).get(key[:2])
+        if not s_ or not rule:
+            return
+        filt = "none" if rule[0] == "r" else "some " + rule[1]
+        if filt == "some " + s_[0]:
+            return
+        if val == filt:
+            if s_[1] is None:
+                s_[1] = ln
+        elif val == "some " + s_[0] and s_[1] is not None:
+            out.append((ln, name, key, rule[0], any(s_[1] < r_ < ln for r_ in reopens), s_[1]))
+            s_[1] = None
+
+    for ln, l in enumerate(lines, 1):
+        t = l.split()
+        if not t:
+            continue
+        res = obs.get(ln)
+        if t[0] == "reopen":
+            reopens.append(ln)
+            handle = {}
+        elif t[0] == "ks" and len(t) >= 3 and res == "ok":
+            handle[t[1]] = t[2]
+        elif t[0] == "put" and len(t) >= 4:
+            name = handle.get(t[1])
+            forget(name, t[2])
+            if res == "ok" and name in rules:
+                st[(name, t[2])] = [t[3] if t[3] != "-" else "", None]
+        elif t[0] in ("del", "delw", "take", "fu", "uf") and len(t) >= 3:
+            forget(handle.get(t[1]), t[2])
+        elif t[0] == "batch":
+            for it in t[2:]:
+                f = it.split(":")
+                if len(f) >= 3:
+                    name = handle.get(f[0])
+                    forget(name, f[2])
+                    if f[1] == "p" and len(f) >= 4 and res == "ok" and name in rules:
+                        st[(name, f[2])] = [f[3] if f[3] != "-" else "", None]
+        elif t[0] in ("clear", "ingest", "delks") and len(t) >= 2:
+            forget(handle.get(t[1]))
+        elif t[0] == "tx":
+            forget()
+        elif t[0] == "get" and len(t) >= 4 and t[1] == "-" and res:
+            v = res if res != "some -" else "some "
+            see(handle.get(t[2]), t[3], v, ln)
+        elif t[0] == "dump" and res and "{" in res:
+            seen = {}
+            for part in res.split(";"):
+                if "{" in part:
+                    name, body = part[:-1].split("{", 1)
+                    seen[name] = dict(kv.split("=") for kv in body.split(",") if "=" in kv)
+            for (name, key) in list(st):
+                if name in seen:
+                    v = seen[name].get(key)
+                    see(name, key, "none" if v is None else "some " + ("" if v == "-" else v), ln)
+    return out
+
+
+def sealed_journal_filter(variant):
+    """a filtered keyspace whose original writes still sit in a SEALED journal (> 64 MB of traffic, journal kept alive by a
+    lagging second keyspace): once a compaction has replaced/removed items, a reopen must not bring the originals back"""
+    from common import run_fjv
+    rule = ["alpha:p61:ff", "alpha:r61", "alpha:p61:ff,r63"][variant]
+    L = ["open plain jcomp=none filters=%s" % rule, "ks h0 alpha", "ks h1 beta", "put h1 71 01", "put h0 61 aa", "put h0 63 cc",
+         "put h0 62 bb", "bigfill h0 66 1024 t0", "rotate h0", "drain", "major h0", "info", "get - h0 61", "get - h0 63",
+         "reopen", "ks h0 alpha", "ks h1 beta", "get - h0 61", "get - h0 63", "get - h0 62", "get - h1 71",
+         "reopen", "ks h0 alpha", "get - h0 61", "get - h0 63"]
+    prog = "\n".join(L) + "\n"
+    o, raw, rc = run_fjv(prog, timeout=300)
+    before = (o.get(13), o.get(14))
+    after = (o.get(18), o.get(19))
+    after2 = (o.get(24), o.get(25))
+    want61 = {0: "some ff", 1: "none", 2: "some ff"}[variant]
+    want63 = {0: "some cc", 1: "some cc", 2: "none"}[variant]
+    if before != (want61, want63):
+        return None      # the compaction did not apply the filter to these items (allowed): nothing to judge
+    if after != before or after2 != before or o.get(20) != "some bb" or o.get(21) != "some 01":
+        return ("items filtered by a compaction (61 -> %s, 63 -> %s) read %s after reopen and %s after a second reopen; "
+                "unfiltered key 62 = %s, other keyspace 71 = %s" % (before[0], before[1], after, after2, o.get(20), o.get(21)), prog)
+    return None
+
+
 def run(rep, tier, seed, build):
+    sj = [x for x in [sealed_journal_filter(v) for v in ((seed % 3,) if tier == "quick" else (0, 1, 2))] if x]
+    for msg, prog in sj[:1]:
+        rep.violation("# C18: %s\n%s" % (msg, prog))
     n, nops = (240, 45) if tier == "quick" else (5000, 90)
     audit(rep, "props/C18.v", THEOREMS, build)
     progs = corpus("C18") + programs(seed, n, nops)
     res = run_seq(rep, progs)
-    coverage(rep, res, progs, RULE)
+    # the monitor judges the implementation's observations on their own
+    from common import known_switch
+    mon, known_hits = 0, 0
+    for ev in res["results"]:
+        for (ln, name, key, kind, reopened, at) in stays_filtered(ev["prog"], ev["impl"]):
+            mon += 1
+            f = known_switch("C18", "remove_verdict_reopen")
+            if kind == "r" and reopened and f and ev["d_corr"] is None:
+                known_hits += 1
+                rep.known_finding("remove_verdict_reopen (%s): %s" % (f["id"], f["what"]))
+            elif len(rep.violations) < 3:
+                rep.violation("# C18: key %s of keyspace %s was observed in its filtered form at line %d and reads its original value "
+                              "again at line %d with no write in between (verdict kind %s, reopen in between: %s)\n%s"
+                              % (key, name, at, ln, kind, reopened, ev["prog"]))
+    coverage(rep, res, progs, RULE, dict(stays_filtered_monitor_hits=mon, known_finding_hits=known_hits))
 
 
 def replay(rep, path, build):
